@@ -12,6 +12,7 @@ import DL.Model.FixBuild
 import DL.Model.Txt
 import DL.Model.VmsJson
 import DL.Model.FixSmall
+import DL.Model.Ws
 
 /-! `dlmodel`: one JSON request per line on stdin, one JSON answer per line on stdout. -/
 open Lean (Json)
@@ -190,6 +191,12 @@ def dispatch (j : Json) : Except String Json := do
     let t ← getStr j "t"
     pure (Json.mkObj [("hits", Json.arr ((DL.Txt.preferAscii t.toList).map (fun h => Json.arr #[(h.start : Json), (h.stop : Json)])).toArray)])
   | "vms" => DL.Vms.runVms j
+  | "ws" => do
+    let segs ← (← getArr j "segs").toList.mapM fun s => do
+      let a ← s.getArr?
+      pure ((← (a[0]!).getBool?), (← (a[1]!).getStr?).toList)
+    let rs := (DL.Ws.noIrregularWhitespace segs).mergeSort (fun a b => a.start < b.start || (a.start == b.start && a.stop ≤ b.stop))
+    pure (Json.mkObj [("ranges", Json.arr (rs.map (fun r => Json.arr #[(r.start : Json), (r.stop : Json)])).toArray)])
   | "ent" => do
     let t ← getStr j "t"
     let e := DL.FixSmall.escape t.toList
